@@ -223,7 +223,7 @@ func (vm *VirtualMachine) runCodeInternal(ctx context.Context, codeToRun *compil
 	}()
 
 	// Reset VM state for new code execution if requested
-	if resetState && vm.startCount > 1 {
+	if resetState {
 		vm.resetForNewCode()
 		// The reset emptied the module cache that applyOptions had filled:
 		// without this, importing a module of the globals worked on the
